@@ -296,19 +296,21 @@ theorem arrRows_bufOK {κ : Nat → String} {s : State} (h : InvK κ s) {a : Arr
 
 theorem indexGet_cases (a : Arr) (sel : Sel) (s : State) :
     (∃ e, indexGet a sel s = (.error e, s)) ∨
-    (sel.view = true ∧ indexGet a sel s = (.ok (subArr a sel), s)) ∨
-    (sel.view = false ∧ indexGet a sel s = (.ok ⟨s.heap.length, List.range sel.pos.length⟩,
+    (sel.view = true ∧ sel.oob = false ∧ indexGet a sel s = (.ok (subArr a sel), s)) ∨
+    (sel.view = false ∧ sel.oob = false ∧ indexGet a sel s = (.ok ⟨s.heap.length, List.range sel.pos.length⟩,
       { s with heap := s.heap ++ [⟨arrDt s a, arrTrail s a, arrRows s (subArr a sel)⟩] })) := by
   unfold indexGet
   split
   · left; exact ⟨_, rfl⟩
-  · simp only []
+  · rename_i hoob
+    have hoob : sel.oob = false := by simpa using hoob
+    simp only []
     split
     · rename_i hview
-      right; left; exact ⟨hview, rfl⟩
+      right; left; exact ⟨hview, hoob, rfl⟩
     · rename_i hview
       right; right
-      refine ⟨by simpa using hview, ?_⟩
+      refine ⟨by simpa using hview, hoob, ?_⟩
       rw [alloc_eq]
       simp [arrRows, subArr]
 
@@ -318,7 +320,7 @@ theorem inv_indexGet {κ : Nat → String} {s : State} (h : InvK κ s) (a : Arr)
     (hsel : sel.view = true → sel.pos.Nodup) :
     Post (indexGet a sel) s (fun r s' => ∃ κ', InvK κ' s' ∧ Ext κ s κ' s' ∧ s'.objs = s.objs ∧ s'.syss = s.syss ∧
       ∀ q, r = .ok q → ArrValid s' q ∧ κ' q.buf = key ∧ q.idx.length = sel.pos.length ∧ q.idx.Nodup) := by
-  rcases indexGet_cases a sel s with ⟨e, he⟩ | ⟨hview, he⟩ | ⟨_, he⟩
+  rcases indexGet_cases a sel s with ⟨e, he⟩ | ⟨hview, _, he⟩ | ⟨_, _, he⟩
   · exact Post.of_eq _ _ he ⟨κ, h, Ext.refl κ s, rfl, rfl, fun q hq => by cases hq⟩
   · apply Post.of_eq _ _ he
     refine ⟨κ, h, Ext.refl κ s, rfl, rfl, ?_⟩
